@@ -6,7 +6,7 @@ import common as C
 import gen as G
 
 PROP = 'C19'
-THEOREMS = []
+THEOREMS = ['split_array_partition', 'split_array_chunk_sizes', 'cli_no_cross_boundary']
 CONFIGS = [dict(jit=True)]
 RULE = ('generated files in a scratch directory (1..4 trajectories of different lengths via a limits file '
         'or none, 1..4 columns): dynamical-coring, gaussian-filtering and compare-discretization run '
